@@ -729,6 +729,67 @@ static void fam_pwhash(sw_t *sw, size_t len) {
     }
 }
 
+/* ------------------------------------------------------------------ password hashing: len = OUTPUT length of the raw key derivation
+   (every out buffer has exactly `len` bytes; the password / salt blocks are exact-size too; cheapest cost parameters);
+   the string forms write into exactly STRBYTES, salt drawn from a deterministic source seeded from the sweep generator */
+
+static int det_internal;
+static void det_begin(sw_t *sw) {
+    det_internal = strcmp(randombytes_implementation_name(), "internal") == 0;
+    det_state = R(sw);
+    randombytes_set_implementation(&det_impl);
+}
+static void det_end(void) { randombytes_set_implementation(det_internal ? &randombytes_internal_implementation : &randombytes_sysrandom_implementation); }
+
+static void fam_pwout(sw_t *sw, size_t len) {
+    size_t pl = (len % 5 == 0) ? 0 : (size_t) (R(sw) % 70);
+    {   /* scrypt, low-level entry: any buflen (incl. 0 and non-multiples of the 32-byte PBKDF2 block), any salt length */
+        size_t sl = (len % 7 == 0) ? 0 : (size_t) (R(sw) % 70);
+        unsigned char *pw = AR(sw, pl), *salt = AR(sw, sl), *out = A(sw, len), *out2 = A(sw, len);
+        uint64_t N = 2ULL << (R(sw) % 4); uint32_t r = 1 + (uint32_t) (R(sw) % 3), p = 1 + (uint32_t) (R(sw) % 3);
+        DI(sw, CALL(sw, crypto_pwhash_scryptsalsa208sha256_ll(pw, pl, salt, sl, 2, 1, 1, out, len))); D(sw, out, len);
+        DI(sw, CALL(sw, crypto_pwhash_scryptsalsa208sha256_ll(pw, pl, salt, sl, N, r, p, out2, len))); D(sw, out2, len);
+        E(sw); }
+    if (len >= crypto_pwhash_BYTES_MIN) {
+        char *pw = (char *) AR(sw, pl); unsigned char *salt = AR(sw, crypto_pwhash_SALTBYTES), *salt32 = AR(sw, crypto_pwhash_scryptsalsa208sha256_SALTBYTES), *out;
+        out = A(sw, len);
+        DI(sw, CALL(sw, crypto_pwhash(out, len, pw, pl, salt, crypto_pwhash_OPSLIMIT_MIN, crypto_pwhash_MEMLIMIT_MIN, crypto_pwhash_ALG_ARGON2ID13))); D(sw, out, len);
+        out = A(sw, len);
+        DI(sw, CALL(sw, crypto_pwhash(out, len, pw, pl, salt, crypto_pwhash_argon2i_OPSLIMIT_MIN, crypto_pwhash_MEMLIMIT_MIN, crypto_pwhash_ALG_ARGON2I13))); D(sw, out, len);
+        out = A(sw, len);
+        DI(sw, CALL(sw, crypto_pwhash_argon2id(out, len, pw, pl, salt, crypto_pwhash_argon2id_OPSLIMIT_MIN, crypto_pwhash_argon2id_MEMLIMIT_MIN, crypto_pwhash_argon2id_ALG_ARGON2ID13))); D(sw, out, len);
+        out = A(sw, len);                                                   /* more lanes' worth of memory, two passes */
+        DI(sw, CALL(sw, crypto_pwhash_argon2id(out, len, pw, pl, salt, 2, 8192 + 1024 * (size_t) (R(sw) % 25), crypto_pwhash_argon2id_ALG_ARGON2ID13))); D(sw, out, len);
+        out = A(sw, len);
+        DI(sw, CALL(sw, crypto_pwhash_argon2i(out, len, pw, pl, salt, crypto_pwhash_argon2i_OPSLIMIT_MIN, crypto_pwhash_argon2i_MEMLIMIT_MIN, crypto_pwhash_argon2i_ALG_ARGON2I13))); D(sw, out, len);
+        out = A(sw, len);                                                   /* scrypt, high-level entry, minimum limits (N = 2^10, r = 8, p = 1) */
+        DI(sw, CALL(sw, crypto_pwhash_scryptsalsa208sha256(out, len, pw, pl, salt32, crypto_pwhash_scryptsalsa208sha256_OPSLIMIT_MIN, crypto_pwhash_scryptsalsa208sha256_MEMLIMIT_MIN))); D(sw, out, len);
+        E(sw);
+    }
+    {   /* string forms: len = password length */
+        char *pw = (char *) AR(sw, len), *s;
+        det_begin(sw);
+        s = (char *) A(sw, crypto_pwhash_STRBYTES);
+        DI(sw, CALL(sw, crypto_pwhash_str(s, pw, len, crypto_pwhash_OPSLIMIT_MIN, crypto_pwhash_MEMLIMIT_MIN))); D(sw, s, crypto_pwhash_STRBYTES);
+        DI(sw, CALL(sw, crypto_pwhash_str_verify(s, pw, len)));
+        s = (char *) A(sw, crypto_pwhash_STRBYTES);
+        DI(sw, CALL(sw, crypto_pwhash_str_alg(s, pw, len, crypto_pwhash_argon2i_OPSLIMIT_MIN, crypto_pwhash_MEMLIMIT_MIN, crypto_pwhash_ALG_ARGON2I13))); D(sw, s, crypto_pwhash_STRBYTES);
+        s = (char *) A(sw, crypto_pwhash_STRBYTES);
+        DI(sw, CALL(sw, crypto_pwhash_str_alg(s, pw, len, crypto_pwhash_OPSLIMIT_MIN, crypto_pwhash_MEMLIMIT_MIN, crypto_pwhash_ALG_ARGON2ID13))); D(sw, s, crypto_pwhash_STRBYTES);
+        s = (char *) A(sw, crypto_pwhash_argon2id_STRBYTES);
+        DI(sw, CALL(sw, crypto_pwhash_argon2id_str(s, pw, len, crypto_pwhash_argon2id_OPSLIMIT_MIN, crypto_pwhash_argon2id_MEMLIMIT_MIN))); D(sw, s, crypto_pwhash_argon2id_STRBYTES);
+        s = (char *) A(sw, crypto_pwhash_argon2i_STRBYTES);
+        DI(sw, CALL(sw, crypto_pwhash_argon2i_str(s, pw, len, crypto_pwhash_argon2i_OPSLIMIT_MIN, crypto_pwhash_argon2i_MEMLIMIT_MIN))); D(sw, s, crypto_pwhash_argon2i_STRBYTES);
+        DI(sw, CALL(sw, crypto_pwhash_argon2i_str_verify(s, pw, len)));
+        if (len % 8 == 0) {
+            s = (char *) A(sw, crypto_pwhash_scryptsalsa208sha256_STRBYTES);
+            DI(sw, CALL(sw, crypto_pwhash_scryptsalsa208sha256_str(s, pw, len, crypto_pwhash_scryptsalsa208sha256_OPSLIMIT_MIN, crypto_pwhash_scryptsalsa208sha256_MEMLIMIT_MIN))); D(sw, s, crypto_pwhash_scryptsalsa208sha256_STRBYTES);
+        }
+        det_end();
+        E(sw);
+    }
+}
+
 /* ------------------------------------------------------------------ fixed-size APIs (alignment / placement only) and hash-to-curve (len = message length) */
 
 static void fam_curve(sw_t *sw, size_t len) {
@@ -820,7 +881,7 @@ static void fam_curve(sw_t *sw, size_t len) {
 static const struct { const char *name; void (*fn)(sw_t *, size_t); } FAMS[] = {
     { "stream", fam_stream }, { "aead", fam_aead }, { "aesgcm", fam_aesgcm }, { "secretbox", fam_secretbox }, { "hash", fam_hash },
     { "secretstream", fam_secretstream }, { "sign", fam_sign }, { "codec", fam_codec }, { "pad", fam_pad }, { "utils", fam_utils },
-    { "kdf", fam_kdf }, { "pwhash", fam_pwhash }, { "curve", fam_curve },
+    { "kdf", fam_kdf }, { "pwhash", fam_pwhash }, { "pwout", fam_pwout }, { "curve", fam_curve },
 };
 static int op_sweep(int argc, char **argv, FILE *o) {
     static sw_t sw; uint64_t lo, hi, seed, len; size_t f; const char *pl;
